@@ -60,9 +60,12 @@ func (c *Check[C]) RunRapid(t *testing.T) {
 			fmt.Printf("VIOLATION-FOUND property=%s check=%s replay=%s\n", c.Prop, c.Name, p)
 		}
 	})
+	ws := newWatchSlot()
 	rapid.Check(t, func(rt *rapid.T) {
 		cs := c.Gen(rt)
+		ws.begin(col, c.Name, cs)
 		r := guard(func() Result { return c.Eval(cs) })
+		ws.end()
 		if col.record(r, cs, false) {
 			cc := cs
 			last = &cc
@@ -78,6 +81,7 @@ type localStats struct {
 	classes                 map[string]int
 	excluded                map[string]int
 	samples                 []interface{}
+	ws                      *watchSlot
 }
 
 func (c *Collector) mergeLocal(l *localStats) {
@@ -113,7 +117,12 @@ func (c *Check[C]) evalEnum(t *testing.T, es *enumState, l *localStats, cs C) bo
 	if es.stop.Load() {
 		return false
 	}
+	if l.ws == nil {
+		l.ws = newWatchSlot()
+	}
+	l.ws.begin(c.coll(), c.Name, cs)
 	r := guard(func() Result { return c.Eval(cs) })
+	l.ws.end()
 	if r.Skip {
 		l.skipped++
 		return true
@@ -169,24 +178,41 @@ func workers() int {
 // by construction. Parts are processed on all cores.
 func (c *Check[C]) RunShards(t *testing.T, desc string, exhaustive bool, nshards int,
 	produce func(shard int, emit func(C) bool)) {
+	jobs := make([]func(emit func(C) bool), nshards)
+	for s := 0; s < nshards; s++ {
+		s := s
+		jobs[s] = func(emit func(C) bool) { produce(s, emit) }
+	}
+	var descs []string
+	if exhaustive {
+		descs = []string{desc}
+	}
+	c.RunJobs(t, descs, jobs)
+}
+
+// RunJobs runs independent enumeration jobs on all cores; descs are recorded
+// as exhaustively covered parts if no violation was found.
+func (c *Check[C]) RunJobs(t *testing.T, descs []string, jobs []func(emit func(C) bool)) {
 	col := c.coll()
 	es := &enumState{}
 	var wg sync.WaitGroup
 	sem := make(chan struct{}, workers())
-	for s := 0; s < nshards; s++ {
+	for _, job := range jobs {
 		wg.Add(1)
 		sem <- struct{}{}
-		go func(s int) {
+		go func(job func(emit func(C) bool)) {
 			defer wg.Done()
 			defer func() { <-sem }()
 			l := newLocal()
-			produce(s, func(cs C) bool { return c.evalEnum(t, es, l, cs) })
+			job(func(cs C) bool { return c.evalEnum(t, es, l, cs) })
 			col.mergeLocal(l)
-		}(s)
+		}(job)
 	}
 	wg.Wait()
-	if exhaustive && es.nviol == 0 {
-		col.addExhaustive(desc)
+	if es.nviol == 0 {
+		for _, d := range descs {
+			col.addExhaustive(d)
+		}
 	}
 }
 
@@ -266,6 +292,11 @@ func replayOne(path string) (bool, string, string, error) {
 	regMu.Lock()
 	fn := registry[rf.Check]
 	regMu.Unlock()
+	if fn != nil {
+		ws := newWatchSlot()
+		ws.begin(getCollector(rf.Property, rf.Check), rf.Check, rf.Case)
+		defer ws.end()
+	}
 	if fn == nil {
 		return false, "", "", fmt.Errorf("unknown check %q in %s", rf.Check, path)
 	}
